@@ -331,6 +331,27 @@ func runC18(c *Check) {
 		}})
 		c.NoteGraph(g)
 		validOK := g.Select(ErrNilEdge(func(t *Term) bool { return t.IsCall("genesis.Genesis).Validate") }))
+		// the file is decoded as a whole: a streaming decoder stops after the first JSON value and
+		// accepts whatever follows it (a second object from a botched merge, the tail of an older
+		// file), so an invalid file would be accepted
+		{
+			streams := g.Select(func(x *Node) bool { return strings.HasSuffix(CallName(x), "encoding/json.Decoder).Decode") })
+			checksRest := g.Select(func(x *Node) bool {
+				cn := CallName(x)
+				return strings.HasSuffix(cn, "encoding/json.Decoder).More") || strings.HasSuffix(cn, "encoding/json.Decoder).Token") || strings.HasSuffix(cn, "encoding/json.Decoder).InputOffset")
+			})
+			whole := g.Select(func(x *Node) bool { return CallName(x) == "encoding/json.Unmarshal" })
+			switch {
+			case len(streams) == 0 && len(whole) > 0:
+				c.OK("C18-R4", "LoadGenesis ⟂ decodes-the-whole-file", fnName(lg), p.InstrPos(whole[0].In), "json.Unmarshal rejects anything after the value", true)
+			case len(streams) >= 2 || len(checksRest) > 0:
+				c.OK("C18-R4", "LoadGenesis ⟂ decodes-the-whole-file", fnName(lg), p.InstrPos(streams[0].In), "the stream is decoded and then checked for remaining input", true)
+			case len(streams) == 1:
+				c.Bad("C18-R4", "LoadGenesis ⟂ decodes-the-whole-file", fnName(lg), p.InstrPos(streams[0].In), "the genesis is read with a streaming decoder that stops after the first JSON value and nothing checks what follows: a malformed file (a second object, a stray brace, the tail of an older file) is accepted and loaded instead of refused", nil)
+			default:
+				c.Unk("C18-R4", "LoadGenesis ⟂ decodes-the-whole-file", fnName(lg), "", "anchor lost: the loader decodes no JSON")
+			}
+		}
 		succ := g.Select(g.SuccessExits())
 		if len(validOK) == 0 {
 			c.Bad("C18-R4", "LoadGenesis ⟂ validates", fnName(lg), p.Pos(lg.Pos()), "LoadGenesis does not branch on Genesis.Validate: an invalid genesis is accepted", nil)
